@@ -488,14 +488,17 @@ static MacroArg *find_arg(MacroArg *args, Token *tok) {
   return NULL;
 }
 
-// Concatenates all tokens in `tok` and returns a new string.
-static char *join_tokens(Token *tok, Token *end) {
+// Concatenates all tokens in `tok` and returns a new string. If
+// `escape` is set, a backslash is put before each " and \ of the
+// string literals and character constants among them (and nowhere
+// else), as the # operator requires.
+static char *join_tokens2(Token *tok, Token *end, bool escape) {
   // Compute the length of the resulting token.
   int len = 1;
   for (Token *t = tok; t != end && t->kind != TK_EOF; t = t->next) {
     if (t != tok && t->has_space)
       len++;
-    len += t->len;
+    len += escape ? 2 * t->len : t->len;
   }
 
   char *buf = calloc(1, len);
@@ -505,11 +508,26 @@ static char *join_tokens(Token *tok, Token *end) {
   for (Token *t = tok; t != end && t->kind != TK_EOF; t = t->next) {
     if (t != tok && t->has_space)
       buf[pos++] = ' ';
+
+    // A character constant is a TK_NUM here; a number is a TK_PP_NUM.
+    if (escape && (t->kind == TK_STR || t->kind == TK_NUM)) {
+      for (int i = 0; i < t->len; i++) {
+        if (t->loc[i] == '\\' || t->loc[i] == '"')
+          buf[pos++] = '\\';
+        buf[pos++] = t->loc[i];
+      }
+      continue;
+    }
+
     strncpy(buf + pos, t->loc, t->len);
     pos += t->len;
   }
   buf[pos] = '\0';
   return buf;
+}
+
+static char *join_tokens(Token *tok, Token *end) {
+  return join_tokens2(tok, end, false);
 }
 
 // Concatenates all tokens in `arg` and returns a new string token.
@@ -518,8 +536,10 @@ static Token *stringize(Token *hash, Token *arg) {
   // Create a new string token. We need to set some value to its
   // source location for error reporting function, so we use a macro
   // name token as a template.
-  char *s = join_tokens(arg, NULL);
-  return new_str_token(s, hash);
+  char *buf = format("\"%s\"", join_tokens2(arg, NULL, true));
+  Token *tok = tokenize(new_file(hash->file->name, hash->file->file_no, buf));
+  tok->line_no = hash->line_no;
+  return tok;
 }
 
 // Concatenate two tokens to create a new token.
